@@ -11,8 +11,9 @@ the base, and serialises both matrices.
 Binding (B2): for every matrix cell of the tier two REAL builds of a five-package program that differ
 in exactly that input.  The complete name map of each build comes from the H6 `name` events (grouped by
 the compiling process), the compile `-p` flag (import path), the asm tool's argv (assembly file names),
-the position file names the program prints about its own call sites (runtime.Caller) or the
-/*line*/ directives of -debugdir, and the pclntab magic of the linked ELF file.  Observed
+the position file names the program prints about its own call sites (runtime.Caller; for the
+cross-compiled build: whether `garble reverse` under that configuration restores the amd64 build's
+position names), and the pclntab magic of the linked ELF file.  Observed
 changed/unchanged per name class is compared with the cell.  Also bound: the recorded `hash-input`
 bytes against the model's GarbleInputs, and (seeded builds) every name against the term recomputed from
 (seed, identifier, import path | struct shape) alone.
@@ -141,35 +142,43 @@ def observe_build(events, prev: Built | None, b: Built):
 
 class Chain:
     """A sequence of builds and edits over one sandbox and one copy of the program."""
+    count = 0
 
-    def __init__(self, work: Path, name: str, steps: list, linker: Path | None = None, template=True):
+    def __init__(self, work: Path, name: str, steps: list, linker: Path | None = None, template=True, after_first=None):
         self.work, self.name, self.steps, self.linker, self.template = work, name, steps, linker, template
+        self.after_first = after_first
+        self.keep = False
         self.results = {}
+        Chain.count += 1
+        self.index = Chain.count
 
     def run(self):
-        root = self.work / ("chain-" + self.name)
+        root = self.work / f"chain{self.index}"
         src = write_salts(root / "src")
         sb = Sandbox(root / "sb", template=self.template)
+        self.src = src
         if self.linker is not None and self.linker.exists() and not (sb.gcache / "tool").exists():
             copytree(self.linker, sb.gcache / "tool")
         self.sb = sb
         prev = None
-        nedit = 0
+        nedit = nbuild = 0
         for st in self.steps:
             if st["do"] == "edit":
                 nedit += 1
                 edit_pkg(src, st["pkg"], nedit)
                 continue
             b = Built(st["name"], st["mode"], st)
+            nbuild += 1
             gflags = list(st.get("gflags", []))
             dbg = None
+            # file names must not end in something that looks like a garble flag (finding F14 of C20)
             if st.get("debugdir"):
-                dbg = root / ("dbg-" + st["name"])
+                dbg = root / f"dbg{nbuild}"
                 gflags = ["-debugdir", str(dbg)] + gflags
             env = {"GARBLE_VERIF_NAMES": "1"}
             env.update(st.get("env", {}))
-            out = root / ("prog-" + st["name"])
-            trace = root / (st["name"] + ".ndjson")
+            out = root / f"prog{nbuild}.bin"
+            trace = root / f"trace{nbuild}.ndjson"
             r = sb.garble(gflags + ["build"] + list(st.get("goflags", [])) + ["-o", str(out), "."], cwd=src, env=env, trace=trace,
                           timeout=2400, garble_bin=st.get("garble_bin"))
             b.wall = r.wall
@@ -185,9 +194,11 @@ class Chain:
                 rmtree(dbg)
             trace.unlink()
             self.results[st["name"]] = b
+            if prev is None and self.after_first is not None:
+                self.after_first(self)
             prev = b
             log(f"  built {st['name']} in {r.wall:.0f}s (compiled {sorted(b.fresh)})")
-        if self.name != "U":
+        if not self.keep:
             rmtree(sb.gocache)
         return self
 
@@ -245,7 +256,14 @@ def entryoff_key(seed: bytes) -> bytes:
     return hashlib.sha256(seed + b"entryOffKey").digest()[:4]
 
 
-def main(tier, seed):
+def main(tier, seed, replay=None):
+    want = None
+    if replay:
+        # re-run only the cell of a recorded violation: --replay <replay dir>
+        w = json.loads((Path(replay) / "witness.json").read_text())["witness"]
+        want = ("seeded" if w["seeded"] else "unseeded", w["input"])
+        if w["input"] in ("garblever", "platform", "gover", "cachestate"):
+            tier = "thorough"
     chk = Check("C12", tier, seed)
     chk.rule = ("one evaluation per (mode, input, name class) cell observed on a pair of real builds differing in exactly that input; "
                 "distinct = distinct cells; every cell aggregates all names of the class in all observed packages")
@@ -285,7 +303,9 @@ def main(tier, seed):
         "tiny": (["-tiny"], {}),
         "gogarble": ([], {"GOGARBLE": MOD}),
     }
-    if tier == "quick":
+    if want and want[1] in flagsets:
+        picks = {"U": [want[1]], "S": [want[1]]}
+    elif tier == "quick":
         picks = {"U": [rng.choice(sorted(flagsets))], "S": [rng.choice(sorted(flagsets))]}
     else:
         picks = {"U": sorted(flagsets), "S": sorted(flagsets)}
@@ -293,7 +313,7 @@ def main(tier, seed):
     def base_steps(m, gflags):
         mode = "seeded" if m == "S" else "unseeded"
         mk = lambda n, **kw: dict({"do": "build", "name": f"{m}{n}", "mode": mode, "gflags": gflags}, **kw)
-        return [mk(0, debugdir=True), {"do": "edit", "pkg": "lib"}, mk(1), {"do": "edit", "pkg": "other"}, mk(2),
+        return [mk(0), {"do": "edit", "pkg": "lib"}, mk(1), {"do": "edit", "pkg": "other"}, mk(2),
                 {"do": "edit", "pkg": "dep"}, mk(3), mk(4, goflags=["-tags=salttag"])]
 
     chains = {"U": base_steps("U", []), "S": base_steps("S", SEEDED)}
@@ -328,8 +348,10 @@ def main(tier, seed):
         gopath = f"{FALLBACK_TOOLCHAIN}/bin:" + os.environ.get("PATH", "")
         chains["garblever"] = [{"do": "build", "name": "U-garblever", "mode": "unseeded", "gflags": [], "garble_bin": alt_bin},
                                {"do": "build", "name": "S-garblever", "mode": "seeded", "gflags": SEEDED, "garble_bin": alt_bin}]
-        chains["platform"] = [{"do": "build", "name": "U-platform", "mode": "unseeded", "gflags": [], "env": {"GOARCH": "arm64"}, "runnable": False, "debugdir": True},
-                              {"do": "build", "name": "S-platform", "mode": "seeded", "gflags": SEEDED, "env": {"GOARCH": "arm64"}, "runnable": False, "debugdir": True}]
+        # cross-compiling switches cgo off, as the go command itself does by default
+        XENV = {"GOARCH": "arm64", "CGO_ENABLED": "0"}
+        chains["platform"] = [{"do": "build", "name": "U-platform", "mode": "unseeded", "gflags": [], "env": XENV, "runnable": False},
+                              {"do": "build", "name": "S-platform", "mode": "seeded", "gflags": SEEDED, "env": XENV, "runnable": False}]
         goenv = {"PATH": gopath, "GARBLE_TEST_GOVERSION": "go1.26.8"}
         chains["gover"] = [{"do": "build", "name": "U-gover", "mode": "unseeded", "gflags": [], "env": goenv},
                            {"do": "build", "name": "S-gover", "mode": "seeded", "gflags": SEEDED, "env": goenv}]
@@ -340,14 +362,69 @@ def main(tier, seed):
         if not FALLBACK_TOOLCHAIN.exists():
             raise Inconclusive(f"the second Go toolchain {FALLBACK_TOOLCHAIN} is missing")
 
+    if want:
+        def views_of(inp):
+            return {"editSame", "editOther", "editDep"} if inp.startswith("edit:") else {inp}
+        pairs = [p for p in pairs if p[0] == want[0] and want[1] in views_of(p[1])]
+        needed = {n for p in pairs for n in p[2:4]}
+        chains = {cn: st for cn, st in chains.items() if any(s.get("name") in needed for s in st)}
+        if not pairs:
+            raise Inconclusive(f"nothing to replay for {want}")
+    leader = "U" if "U" in chains else sorted(chains)[0]
+
     # ---- 3. real builds: the unseeded base chain first (it also builds the patched linker), the rest in parallel
-    first = Chain(work, "U", chains["U"]).run()
-    linker = first.sb.gcache / "tool"
-    rest = [Chain(work, n, st, linker=linker) for n, st in chains.items() if n != "U"]
-    parallel(lambda c: c.run(), rest, workers=4 if tier == "quick" else 3)
-    built = dict(first.results)
-    for c in rest:
+    linker = work / "linker-tool"
+    ready = threading.Event()
+    failed = []
+
+    def snapshot_linker(chain):
+        copytree(chain.sb.gcache / "tool", linker)
+        ready.set()
+
+    def run_chain(c):
+        try:
+            if c.name != leader:
+                ready.wait()
+                if failed:
+                    return c
+            return c.run()
+        except BaseException as e:
+            failed.append(e)
+            ready.set()
+            return c
+
+    all_chains = [Chain(work, leader, chains[leader], after_first=snapshot_linker)]
+    all_chains += [Chain(work, n, st, linker=linker) for n, st in chains.items() if n != leader]
+    for c in all_chains:
+        c.keep = c.name == "platform"
+    parallel(run_chain, all_chains, workers=5 if tier == "quick" else 4)
+    if failed:
+        raise failed[0]
+    built = {}
+    for c in all_chains:
         built.update(c.results)
+
+    # The cross-compiled program cannot run here: its position names are observed through `garble reverse`
+    # under the same configuration, fed the position names of the amd64 build (reversed = the same name
+    # denotes the same call site under GOARCH=arm64; printed back unchanged = it does not).
+    for c in all_chains:
+        if c.name != "platform":
+            continue
+        for m, gf in (("U", []), ("S", SEEDED)):
+            A, B = built.get(f"{m}0"), built.get(f"{m}-platform")
+            if A is None or B is None:
+                continue
+            keys = [(label, site, fname) for label, sites in sorted(A.defs.positions.items()) for site, fname in sorted(sites.items()) if fname]
+            if not keys:
+                continue
+            rr = c.sb.garble(gf + ["reverse", "."], cwd=c.src, env=XENV, stdin="".join(k[2] + ":1\n" for k in keys), timeout=1800)
+            if rr.returncode not in (0, 1):
+                raise Inconclusive(f"garble reverse under GOARCH=arm64 failed: {rr.stderr[-2000:]}")
+            outl = rr.stdout.split("\n")
+            for (label, site, fname), o in zip(keys, outl):
+                hit = o != fname + ":1" and o.startswith(PKGS[label] + "/")
+                B.defs.positions.setdefault(label, {})[site] = fname if hit else "not-reversed-under-arm64.go"
+        rmtree(c.sb.gocache)
     chk.extra["builds"] = {n: {"wall_s": round(b.wall, 1), "recompiled": sorted(b.fresh)} for n, b in built.items()}
     chk.extra["references_cross_checked"] = sum(b.refs for b in built.values())
     conflicts = [dict(c, build=n) for n, b in built.items() for c in b.ref_conflicts]
@@ -427,7 +504,7 @@ def main(tier, seed):
             raise Inconclusive(f"build {an} or {bn} missing")
         A, B = built[an], built[bn]
         pair = [an, bn]
-        use_dbg = inp in ("platform",)
+        use_dbg = False   # -debugdir output is not used: its garbled files overwrite each other's beginnings
         if inp.startswith("edit:"):
             x = inp.split(":")[1]
             views = {}
@@ -495,7 +572,7 @@ def main(tier, seed):
         chk.extra["model_mismatch_cells"] = mismatches
     if not table:
         raise Inconclusive("no cell was observed")
-    chk.exhaustive = tier == "thorough" and not chk.extra["specified_cells_unobserved"]
+    chk.exhaustive = tier == "thorough" and not want and not chk.extra["specified_cells_unobserved"]
     return chk.finish()
 
 
